@@ -8,7 +8,7 @@
    "T pushes N(m,v) forward to the law with cdf F" is stated as: T strictly increasing and
    F (T x) = ncdf m v x for every real x. *)
 From Coq Require Import Reals List ZArith.
-From GS Require Import Num Loops C19_Model C19_RInst C19_Proofs C19_Discrete C19_Final.
+From GS Require Import Num Loops Formulas Formulas_gen C19_Model C19_RInst C19_Proofs C19_Discrete C19_Final C19_Tie.
 Open Scope R_scope.
 
 (* the hypotheses on the oracle functions are satisfiable *)
@@ -221,3 +221,53 @@ Theorem C19_transform_store :
     (s = StTrue -> name = field).
 Proof. exact @transform_store. Qed.
 Print Assumptions C19_transform_store.
+
+(* ---- ties: the hand model equals the formulas translated from /repo's sources on this run
+   (coq/gen/Formulas_gen.v, regenerated by tools/py2coq.py).  No side conditions: over R there is no NaN, integer
+   powers are defined for every base, and the masks y > 0 / y < 0 exclude each other. *)
+Theorem C19_tie_array_to_lognormal :
+  forall (T : Type) (O : NumOps T) (field : list T),
+    map (Formulas_gen.array_to_lognormal O) field = C19_Model.array_to_lognormal O field.
+Proof. exact @array_to_lognormal_tie. Qed.
+Print Assumptions C19_tie_array_to_lognormal.
+
+Theorem C19_tie_uniform_to_arcsin :
+  forall erf erfinv field a b,
+    Formulas_gen.uniform_to_arcsin (Rops erf erfinv) field a b = uniform_to_arcsin_elem (Rops erf erfinv) a b field.
+Proof. exact uniform_to_arcsin_tie. Qed.
+Print Assumptions C19_tie_uniform_to_arcsin.
+
+Theorem C19_tie_uniform_to_uquad :
+  forall erf erfinv field a b,
+    Formulas_gen.uniform_to_uquad (Rops erf erfinv) field a b = uniform_to_uquad_elem (Rops erf erfinv) a b field.
+Proof. exact uniform_to_uquad_tie. Qed.
+Print Assumptions C19_tie_uniform_to_uquad.
+
+Theorem C19_tie_BoxCox_normalize :
+  forall erf erfinv lmbda data,
+    Formulas_gen.BoxCox_normalize (Rops erf erfinv) lmbda data = boxcox_normalize (Rops erf erfinv) lmbda data.
+Proof. exact BoxCox_normalize_tie. Qed.
+Print Assumptions C19_tie_BoxCox_normalize.
+
+Theorem C19_tie_BoxCox_denormalize :
+  forall erf erfinv lmbda data,
+    Formulas_gen.BoxCox_denormalize (Rops erf erfinv) lmbda data = boxcox_denormalize (Rops erf erfinv) lmbda data.
+Proof. exact BoxCox_denormalize_tie. Qed.
+Print Assumptions C19_tie_BoxCox_denormalize.
+
+(* the quantile identities and the inverse-pair identity, stated on the translated source formulas *)
+Theorem C19_source_quantile_identities :
+  forall erf erfinv a b u, a < b ->
+    let O := Rops erf erfinv in
+    (0 < u < 1 -> cdf_arcsine a b (Formulas_gen.uniform_to_arcsin O u a b) = u) /\
+    cdf_uquad a b (Formulas_gen.uniform_to_uquad O u a b) = u.
+Proof. intros erf erfinv a b u Hab; split; [intros; now apply source_arcsine_ppf | now apply source_uquad_ppf]. Qed.
+Print Assumptions C19_source_quantile_identities.
+
+Theorem C19_source_boxcox_inverse :
+  forall erf erfinv lmbda shift x,
+    let O := Rops erf erfinv in
+    isclose0 O lmbda = true \/ 0 < lmbda * (x + shift) + 1 ->
+    Formulas_gen.BoxCox_normalize O lmbda (array_boxcox_elem O lmbda shift x) = x + shift.
+Proof. exact source_boxcox_inverse. Qed.
+Print Assumptions C19_source_boxcox_inverse.
